@@ -49,10 +49,10 @@ func solverArgv(profile string, timeoutS int) []string {
 		return []string{"cvc5", "--incremental", "--produce-models", "--solve-bv-as-int=sum", fmt.Sprintf("--tlimit-per=%d", timeoutS*1000)}
 	case "cvc5":
 		return []string{"cvc5", "--incremental", "--produce-models", fmt.Sprintf("--tlimit-per=%d", timeoutS*1000)}
-	case "z3new":
-		return []string{"z3-new", "-in", fmt.Sprintf("-t:%d", timeoutS*1000)}
-	default:
+	case "z3old":
 		return []string{"z3", "-in", fmt.Sprintf("-t:%d", timeoutS*1000)}
+	default: // "bv": z3 5.1.0 (markedly faster than 4.8.12 on these incremental BV+UF queries)
+		return []string{"z3-new", "-in", fmt.Sprintf("-t:%d", timeoutS*1000)}
 	}
 }
 
